@@ -6,7 +6,7 @@
    synthetic files.  Statements only; proofs are in Sweep.v / Proofs.v. *)
 From Coq Require Import ZArith List Bool.
 From Abacus.Common Require Import Arr.
-From Abacus.C16 Require Import Types Gen Spec Model Sweep Proofs.
+From Abacus.C16 Require Import Types Gen Spec Model Sweep Proofs ProofsPpd.
 Import ListNotations.
 
 (* ★ resolve_total_table — FINITE sweep, bound stated: for every one of the
@@ -71,3 +71,13 @@ Theorem values_independent : forall (V : Type) (decode : rawcol -> col -> V) c l
   In (x, v1) (table decode c l1) -> In (x, v2) (table decode c l2) -> v1 = v2 /\ v1 = decode c x.
 Proof. exact (fun V decode => values_independent_lemma decode). Qed.
 Print Assumptions values_independent.
+
+(* the ppd handed to unpack_pids when the caller gives none is the header value rounded to the NEAREST integer (the default
+   expression `kwargs.get('ppd', int(round(header['ppd'])))` and the arguments of the three decoder calls are checked
+   structurally by the generator): a header ppd written as a float cube root of the particle number — a hair below or above
+   the integer — still gives that integer *)
+Theorem ppd_default_nearest : forall (N : BinNums.Z) (h : QArith_base.Q),
+  QArith_base.Qlt (QArith_base.Qminus (QArith_base.inject_Z N) (QArith_base.Qmake 1 2)) h ->
+  QArith_base.Qlt h (QArith_base.Qplus (QArith_base.inject_Z N) (QArith_base.Qmake 1 2)) -> gen_ppd_default h = N.
+Proof. exact ppd_default_nearest_lemma. Qed.
+Print Assumptions ppd_default_nearest.
